@@ -199,7 +199,21 @@ def search(ctx):
             twin = ("R" if x[0] == "L" else "L") + x[1:] if "Literal" not in x else x
             seqs.append("C16.seq\td~0~0:1:%s|c~0~%s~|d~0~1:1:%s|c~0~%s~|c~0~%s~" % (a, x, b, x, twin))
     step = max(1, len(seqs) // 3000)
-    return suspicious + seqs[::step] + rest[:6000]
+    # a symbol of the same name that is not a function between two overloads (and before / after them): every
+    # overload above the call has to be a candidate
+    syms = []
+    n = 0
+    for a, b in itertools.permutations(params, 2):
+        for x in args:
+            n += 1
+            k = "setb"[n % 4]
+            sc = n % 2
+            place = n % 3
+            d = ["d~%d~0:1:%s" % (sc, a), "d~%d~1:1:%s" % (sc, b)]
+            d.insert(place, "o~%d~%s" % (sc, k))
+            syms.append("C16.seq\t%s|c~%d~%s~" % ("|".join(d), sc, x))
+    step2 = max(1, len(syms) // 3000)
+    return suspicious + syms[::step2] + seqs[::step] + rest[:6000]
 
 
 SPEC = {
@@ -233,6 +247,9 @@ SPEC = {
         # calls interleaved with declarations: the verdict at a site is the resolution on the candidates visible there
         "site_verdict_is_resolution_of_visible", "visible_prefix_independent", "nothing_visible_is_unknown_name",
         "registry_is_transparent", "template_body_site_resolved_at_first_instantiation", "observations_are_at_places",
+        # symbols of the same name that are not functions: the gathering loop of find_identifier_in_scope
+        "gathering_ignores_non_function_symbols", "non_function_symbol_changes_no_candidate",
+        "same_name_symbols_take_no_candidate_away", "inner_type_hides_outer_overloads",
         # the source text of the transcribed routines, re-extracted each run
         "resolve_shape_as_modelled", "resolution_reads_no_call_history", "resolve_source_as_transcribed"]],
     "harness": "c16",
